@@ -27,6 +27,7 @@ pub fn run(args: &Args, r: &mut Report) {
         "c11-reboot-question-on-demand-justified",
         "c11-on-demand-upgrades-reboot-question",
         "c11-on-demand-upgrade-is-kept",
+        "c11-on-demand-check-asks-reboot-on-demand",
         "c11-every-on-demand-request-asks-reboot-question",
         "c11-request-wakes-waiting-machine",
         "c11-scheduled-operation-survives-handle-drop",
